@@ -32,6 +32,27 @@ type fsFixture struct {
 	base, root, cache string
 	files             map[string][]byte // relative to root
 	mtime             time.Time
+	mtimes            map[string]time.Time // files rewritten during the run
+}
+
+// mtimeOf is the current modification time of a served file.
+func (fx *fsFixture) mtimeOf(rel string) time.Time {
+	if t, ok := fx.mtimes[rel]; ok {
+		return t
+	}
+	return fx.mtime
+}
+
+// rewrite replaces a served file's content; its modification time moves on by half an hour.
+func (fx *fsFixture) rewrite(rel string, b []byte) {
+	p := filepath.Join(fx.root, rel)
+	t := fx.mtimeOf(rel).Add(30 * time.Minute)
+	os.WriteFile(p, b, 0o644)
+	os.Chtimes(p, t, t)
+	if fx.mtimes == nil {
+		fx.mtimes = map[string]time.Time{}
+	}
+	fx.mtimes[rel], fx.files[rel] = t, b
 }
 
 func fileBytes(name string, n int) []byte {
